@@ -254,6 +254,7 @@ class ReAuthRequest(ReAuth):
         setattr(self, "route_record", [])
         setattr(self, "framed_ipv6_prefix", [])
         setattr(self, "reply_message", [])
+        setattr(self, "state_class", [])
         setattr(self, "charging_rule_install", [])
         setattr(self, "charging_rule_remove", [])
 
